@@ -487,6 +487,13 @@ impl Read for Chunked<'_> {
             return Err(std::io::Error::new(std::io::ErrorKind::Interrupted, "EINTR"));
         }
         let n = buf.len().min(self.chunk).min(self.data.len() - self.pos);
+        if n == 0 && !buf.is_empty() {
+            // end of input: a reader that keeps asking is looping without consuming anything
+            self.calls += 1_000_000;
+            if self.calls > 1_000_000_000 {
+                panic!("the decoder asked the stream for more {} times after its end: it loops without consuming input", self.calls / 1_000_000);
+            }
+        }
         buf[..n].copy_from_slice(&self.data[self.pos..self.pos + n]);
         self.pos += n;
         Ok(n)
@@ -513,7 +520,7 @@ pub fn dec_io_interrupted(bytes: &[u8], chunk: usize, interrupt_at: Option<usize
     match r {
         Ok(((Ok(v), consumed), taken)) => (DecOut::Ok { value: show(&v), rest: bytes.len().checked_sub(consumed).unwrap_or(usize::MAX) }, taken),
         Ok(((Err(e), _), taken)) => (DecOut::Err(err_class(&e).to_string()), taken),
-        Err(_) => (DecOut::Panic(String::new()), 0),
+        Err(p) => (DecOut::Panic(p.downcast_ref::<String>().cloned().or_else(|| p.downcast_ref::<&str>().map(|s| s.to_string())).unwrap_or_default()), 0),
     }
 }
 
@@ -910,9 +917,10 @@ pub fn main(opts: &Opts) {
             }
             if bs.len() <= 64 {
                 let src = Chunked { data: bs, pos: 0, chunk: 3, interrupt_at: None, calls: 0 };
-                let io = match serde_amqp::from_reader::<serde_amqp::lazy::LazyValue>(src) {
-                    Ok(l) => format!("OK {} {}", l.as_slice().len(), bs.len() - l.as_slice().len().min(bs.len())),
-                    Err(_) => "ERR".to_string(),
+                let io = match std::panic::catch_unwind(std::panic::AssertUnwindSafe(|| serde_amqp::from_reader::<serde_amqp::lazy::LazyValue>(src))) {
+                    Ok(Ok(l)) => format!("OK {} {}", l.as_slice().len(), bs.len() - l.as_slice().len().min(bs.len())),
+                    Ok(Err(_)) => "ERR".to_string(),
+                    Err(p) => format!("PANIC {}", p.downcast_ref::<String>().cloned().unwrap_or_default()),
                 };
                 if io != lzs {
                     report.finding(Finding { kind: "violation", key: "lazy:io-vs-slice".into(), description: format!("{} as a LazyValue: slice {}, stream {}", short(bs), lzs, io), replay: json!({"property": prop, "module": "codec", "bytes": hx(bs), "lazy": true}) });
@@ -1082,7 +1090,7 @@ fn lazy_checks(enc: &[u8], with_tail: &[u8], report: &mut Report, prop: &str, te
     let line = (format!("V lazy {}", hx(with_tail)), format!("OK {} {}", enc.len(), with_tail.len() - enc.len()));
     for chunk in [1usize, 7, 1 << 16] {
         let src = Chunked { data: with_tail, pos: 0, chunk, interrupt_at: None, calls: 0 };
-        match serde_amqp::from_reader::<LazyValue>(src) {
+        match std::panic::catch_unwind(std::panic::AssertUnwindSafe(|| serde_amqp::from_reader::<LazyValue>(src))).unwrap_or_else(|_| Err(serde::de::Error::custom("the stream decoder panicked / looped at the end of the input"))) {
             Ok(lv) if lv.as_slice() == enc => {}
             r => {
                 report.finding(Finding { kind: "violation", key: "lazy:io-vs-slice".into(), description: format!("from_reader::<LazyValue> (chunks of {}) gives {:?} where the slice gives the {} bytes of the value", chunk, r.map(|l| short(l.as_slice())), enc.len()), replay: replay.clone() });
@@ -1133,7 +1141,7 @@ fn long_bodies(report: &mut Report, prop: &str) {
             }
             for chunk in [1usize << 20, 65536, 4099] {
                 let src = Chunked { data: &enc, pos: 0, chunk, interrupt_at: None, calls: 0 };
-                match serde_amqp::from_reader::<Value>(src) {
+                match std::panic::catch_unwind(std::panic::AssertUnwindSafe(|| serde_amqp::from_reader::<Value>(src))).unwrap_or_else(|_| Err(serde::de::Error::custom("the stream decoder panicked / looped at the end of the input"))) {
                     Ok(w) if w == *v => {}
                     r => {
                         report.finding(Finding { kind: "violation", key: "io-vs-slice:in-scope".into(), description: format!("from_reader (chunks of {}) of a {} of {} bytes: {}", chunk, what, len, match r { Ok(_) => "a different value".to_string(), Err(e) => format!("{:?}", e) }), replay: replay.clone() });
